@@ -384,6 +384,27 @@ def gen_extreme_layout_cases(rng, W, binpath, shard_no, nshards):
     return cases
 
 
+def gen_self_similar_cases(rng, W, binpath):
+    """a layout that is valid evidence for its own step (signed by the functionary it authorises), whose dedicated
+    sub-directory is a symbolic link back to the link directory (planted without any key): verification must come back"""
+    cases = []
+    reqs = []
+    ks = ["ed4", "edp2", "ec-b"]
+    for k in ks:
+        layout = scen.mk_layout(W, [k], [scen.mk_step("sub", 1, [W.kid(k)], [], [["ALLOW", "*"]], [["ALLOW", "*"]])], [])
+        reqs.append((layout, [k], "new"))
+    wires = scen.sign_all(binpath, reqs, nproc=1)
+    for k, w in zip(ks, wires):
+        d = f"sub.{W.pfx(k)}"
+        for target in (".", "./", "../links", "loop", d):
+            files = {f"{d}.link": scen.dumps(w), d: {"symlink": target}}
+            if target == "loop":
+                files["loop"] = {"symlink": "."}
+            cases.append({"op": "verify", "layout": scen.dumps(w), "caller_keys": [[W.kid(k), W.pub(k)]], "files": files,
+                          "work_files": {}, "step_name": None, "reps": 1, "meta": {"cls": "self_similar_sublayout_directory_loop"}})
+    return cases
+
+
 def gen_inspection_tree_cases(rng, W, binpath, n):
     """a valid layout with one inspection, verified in a working directory that contains things other than regular
     files (symlinks to devices / directories / themselves, deep nesting): recording the inspection's artifacts must
@@ -518,6 +539,8 @@ def shard(binpath, seed, sh, n, env=None, runner=None, tag="native"):
     cases += dirs
     cases += gen_signed_layout_cases(rng, W, seeds, max(20, n // 20), common.HARNESS / "target" / "release" / "itv")
     cases += gen_extreme_layout_cases(rng, W, common.HARNESS / "target" / "release" / "itv", sh, common.NPROC)
+    if sh in (0, 1):
+        cases += gen_self_similar_cases(rng, W, common.HARNESS / "target" / "release" / "itv")
     if sh == 0 and not runner:
         cases += gen_large_cases(rng, seeds)
     cases += gen_inspection_tree_cases(rng, W, common.HARNESS / "target" / "release" / "itv", max(6, n // 300))
@@ -734,7 +757,7 @@ def main(ctx):
                                     "statement_json", "predicate_json", "envelope")] + \
           ["ep:metablock:ok", "ep:pubkey_json:ok", "ep:spki:ok", "ep:pk8:ok", "ep:rules:ok", "ep:verify:err", "input:adversarial_json",
            "input:byte_mutation", "input:random_bytes", "input:hostile_link_dir", "input:rules_adversarial", "input:hostile_signed_layout",
-           "input:large", "input:inspection_over_special_files", "input:extreme_signed_layout", "library_log_statements_formatted"]
+           "input:large", "input:inspection_over_special_files", "input:extreme_signed_layout", "input:self_similar_sublayout_directory_loop", "library_log_statements_formatted"]
     return common.finish(
         PROP, ctx.tier, ctx.seed, res, t0=ctx.t0,
         rule="28 entry points (JSON decoders of every public type through slice/str, metadata wrappers, raw builder, key importers "
